@@ -33,7 +33,7 @@ def demo_cmd(d, R, out):
     import re
     wraps = sorted(set(re.findall(r'--wrap=(\w+)', open(os.path.join(d, src)).read())))
     extra = ' '.join('-Wl,--wrap=' + w for w in wraps)
-    return ('%s && R=%s; gcc -g -O1 -pthread ' + extra + ' %s %s/%s %s -o %s -lm || exit 99; timeout 120 %s; rc=$?; rm -f %s; cd /; rm -rf %s.d; exit $rc' % (prep, R, INC, so, src, SRCS, out, out, out, out))
+    return (('%s && R=%s; gcc -g -O1 -pthread ' + extra + ' %s %s/%s %s -o %s -lm || exit 99; timeout 120 %s; rc=$?; rm -f %s; cd /; rm -rf %s.d; exit $rc') % (prep, R, INC, so, src, SRCS, out, out, out, out))
 
 def confirm(mid, demo_runs):
     d = os.path.join(V, 'seeded', mid)
